@@ -138,6 +138,14 @@ def make_decls(rnd):
                     extra = []
             decls.append({"kind": "type", "names": [name] + extra, "type": canon(sub), "text": text,
                           "deps": deps_of(sub) - {name}, "key": name})
+    if rnd.random() < 0.5:
+        # an enumeration over a base type whose name has several words (white space and comments may separate them)
+        base = rnd.choice(list(A.SPELLINGS))
+        e = A.t_enum(f"EM{len(decls)}", base, [("P", 1), ("Q", 2), ("R", 5)], flag=rnd.random() < 0.4 and not A.INTS[base][1])
+        e["spelling"] = A.SPELLINGS[base]
+        r = A.Renderer()
+        r.ensure(e)
+        decls.append({"kind": "type", "names": [e["name"]], "type": canon(e), "text": r.defs[0][1], "deps": set(), "key": e["name"]})
     # typedef aliases: of built-in names, of user types, chains, arrays and pointers of them
     pool = ["uint8", "uint32", "WORD", "unsigned long", "wchar_t", "int64_t"] + [d["key"] for d in decls]
     for i in range(rnd.randrange(1, 5)):
